@@ -772,6 +772,10 @@ class VarsManager(object):
                 has_constrains = True
             if k + "r" in skip or k + "i" in skip:
                 has_constrains = True
+            # a fixed component keeps its value (r < 0 would move the phase by pi)
+            for j in (k + "r", k + "i"):
+                if j in self.variables and j not in self.trainable_vars:
+                    has_constrains = True
             if has_constrains:
                 continue
             self.std_polar(k)
